@@ -9,6 +9,7 @@ import (
 	"fmt"
 	"go/ast"
 	"go/token"
+	"go/types"
 	"math/big"
 	"os"
 	"path/filepath"
@@ -376,7 +377,7 @@ func genRuleTables(ru *pkg) {
 	var fc []string
 	sc := ru.tpkg.Scope()
 	for _, n := range sc.Names() {
-		if strings.HasSuffix(n, "Field") && n != "fieldCompare" {
+		if _, isConst := sc.Lookup(n).(*types.Const); isConst && strings.HasSuffix(n, "Field") && n != "fieldCompare" {
 			fc = append(fc, n)
 		}
 	}
